@@ -164,17 +164,6 @@ def gen_stream(ck, n_trees, n_mut, n_double):
     return cases
 
 
-def has_div_zero_or_import_in_msg(files):
-    """the classes of the listed findings (the theorems' guards)"""
-    def scan_e(e):
-        return e[0] == "div" or (e[0] in ("add", "sub", "mul") and (scan_e(e[1]) or scan_e(e[2])))
-    for items in files.values():
-        for it, depth, parent, _ in fg.walk_items(items):
-            if it[0] == "import" and parent is not None and parent[0] == "msg":
-                return True
-    return False
-
-
 def run(ck):
     ck.assumptions.extend(fs.ASSUME)
     ck.coverage["trusted_base"] = ["Coq 8.16.1 kernel + vm_compute", "tools/translate_front.py",
